@@ -431,6 +431,14 @@ def run_check(prop, tier, verif_seed, n_runs=None, wall=None, procs=None,
         if agg['timeouts'] > max(5, 0.02 * agg['runs']) and exit_code == 0:
             lines.append('HARNESS-ERROR too many abandoned runs')
             exit_code = 2
+    refused = agg['probes'].get('composition_refused_by_chi', 0)
+    if refused:
+        lines.append('NOTE: in %d runs chi refused to build an object of the '
+                     'scenario (input validation); these runs observed '
+                     'nothing' % refused)
+        if refused > max(5, 0.05 * agg['runs']) and exit_code == 0:
+            lines.append('HARNESS-ERROR too many scenarios refused by chi')
+            exit_code = 2
     if agg['runs'] == 0 and exit_code == 0:
         lines.append('HARNESS-ERROR no runs executed')
         exit_code = 2
